@@ -21,7 +21,7 @@
     registry  M3 S"funcs" L<n> (L2 S<name> <callable>).. S"inst" (N | M2 S"dispatch" (N|<dispfn>) S"attrs" L<n> (L2 S<name> <attr>)..)
                  S"custom" (N|<dispfn>)
     pool      N (absent) | T (accepting) | F (full)
-    parse-outcome   E   |   P <value>
+    parse-outcome   E   |   P <value>   |   Z  (the body is empty: `marshaledDispatchBody s true _`)
   Output: `ok U2 <reply> <effects>` with reply `U0` (empty body) or `U1 <document>`, effects
     `L<n>` of `U4 S"call" S<target> <method> <params>` / `U5 S"enqueue" <custom> <method> <params> I<ver>`;
     or `err <Class> <arg>`.
@@ -202,6 +202,8 @@ def srvC (toks : List String) : String :=
       let po : Option ParseOutcome :=
         match rest with
         | ["E"] => some .parseError
+        -- the empty body: `not data` holds, `loads` is not reached (it would return `None`)
+        | ["Z"] => some (.parsed .none)
         | "P" :: vt =>
           match readVal vt with
           | some (v, []) => some (.parsed v)
@@ -210,7 +212,7 @@ def srvC (toks : List String) : String :=
       match po with
       | some po =>
         let s : Server := { cfg := cfg, reg := reg, custom := custom, pool := pool, conv := stdConv }
-        let (r, eff) := marshaledDispatch s po
+        let (r, eff) := marshaledDispatchBody s (rest == ["Z"]) po
         match r with
         | .ok reply => "ok " ++ showVal (.tuple [replyVal reply, .list (eff.map effectVal)])
         | .error e => "err " ++ e.cls ++ " " ++ showVal e.arg
